@@ -549,7 +549,7 @@ def coq_names(k, dt):
              "bitxor", "bitnot", "shift_left", "shift_right_logical"):
         return f"jax_{n} {sb}", f"lowered_{n} {sb}", "int"
     if n == "shift_right_arithmetic":
-        return f"jax_shift_right_arithmetic {sb}", f"lowered_sra_{'signed' if dt in SIGNED else 'unsigned'} {sb}", "int"
+        return f"jax_shift_right_arithmetic {sb}", f"lowered_shift_right_arithmetic {sb}", "int"
     if n in ("max", "min", "clamp", "clip", "relu"):
         return f"jax_{n}", f"lowered_{n}", "int"
     if n == "relu6":
@@ -596,15 +596,6 @@ def lowered_alternatives(k, dt):
     repaired_<k> may be listed here while a patch of .scratch/c01k/ is pending."""
     low = coq_names(k, dt)[1]
     alts = [low]
-    sb = sb_lit(dt) if dt in INT_DTYPES else None
-    if k.name == "neg" and dt in UNSIGNED:                                   # fix_neg_unsigned.diff
-        alts.append(f"repaired_neg {sb}")
-    elif k.name in ("shift_left", "shift_right_logical") and dt in SIGNED:   # fix_shift_signed.diff
-        alts.append(f"repaired_{k.name} {sb}")
-    elif k.name == "shift_right_arithmetic" and dt in UNSIGNED:              # fix_sra_unsigned.diff
-        alts.append(f"repaired_sra_unsigned {sb}")
-    elif k.name.startswith("integer_pow") and k.extra["y"] >= 1:             # fix_integer_pow.diff
-        alts.append(f"(fun x => repaired_integer_pow {sb} x {k.extra['y']}%nat)")
     return alts
 
 
